@@ -120,23 +120,23 @@ pub use crate::hss::{SigningKey, VerifyingKey};
 
 use core::convert::TryFrom;
 use signature::Error;
-use tinyvec::ArrayVec;
 
 use constants::MAX_HSS_SIGNATURE_LENGTH;
+use util::ByteBuffer;
 
 /**
  * Implementation of [`signature::Signature`].
  */
 #[derive(Debug)]
 pub struct Signature {
-    bytes: ArrayVec<[u8; MAX_HSS_SIGNATURE_LENGTH]>,
+    bytes: ByteBuffer<MAX_HSS_SIGNATURE_LENGTH>,
     #[cfg(feature = "verbose")]
     pub hash_iterations: u32,
 }
 
 impl Signature {
     pub(crate) fn from_bytes_verbose(bytes: &[u8], _hash_iterations: u32) -> Result<Self, Error> {
-        let bytes = ArrayVec::try_from(bytes).map_err(|_| Error::new())?;
+        let bytes = ByteBuffer::try_from(bytes).map_err(|_| Error::new())?;
 
         Ok(Self {
             bytes,
@@ -148,7 +148,7 @@ impl Signature {
 
 impl AsRef<[u8]> for Signature {
     fn as_ref(&self) -> &[u8] {
-        self.bytes.as_ref()
+        self.bytes.as_slice()
     }
 }
 
